@@ -518,10 +518,53 @@ class _WhileTrue(ast.NodeTransformer):
         return node
 
 
+# ------------------------------------------------------------------------------------------------ N7
+def _split_handlers(trees: dict[str, ast.Module]) -> None:
+    """`except Exception as e: pre; if isinstance(e, T): a [else: b]; post` (T a subclass of Exception defined in the package, not caught by an
+    earlier handler, e not re-bound) is the handler pair `except T as e: pre; a; post` / `except Exception as e: pre; b; post`."""
+    bases: dict[str, list[str]] = {}
+    for t in trees.values():
+        for c in ast.walk(t):
+            if isinstance(c, ast.ClassDef):
+                bases.setdefault(c.name, [ast.unparse(b).split(".")[-1] for b in c.bases])
+    builtin_exc = {"Exception", "ValueError", "RuntimeError", "OSError", "ConnectionError", "TimeoutError", "TypeError", "KeyError", "IndexError", "LookupError", "ArithmeticError"}
+
+    def is_exception(name: str, depth: int = 0) -> bool:
+        if name in builtin_exc:
+            return True
+        if depth > 8 or name not in bases:
+            return False
+        return any(is_exception(b, depth + 1) for b in bases[name])
+    for t in trees.values():
+        for tr in [n for n in ast.walk(t) if isinstance(n, ast.Try)]:
+            new_handlers: list[ast.ExceptHandler] = []
+            for h in tr.handlers:
+                done = False
+                if h.type is not None and ast.unparse(h.type) == "Exception" and h.name:
+                    ifs = [(i, st) for i, st in enumerate(h.body) if isinstance(st, ast.If) and isinstance(st.test, ast.Call) and ast.unparse(st.test.func) == "isinstance"
+                           and len(st.test.args) == 2 and isinstance(st.test.args[0], ast.Name) and st.test.args[0].id == h.name and isinstance(st.test.args[1], (ast.Name, ast.Attribute))]
+                    rebinds = any(isinstance(x, ast.Name) and x.id == h.name and isinstance(x.ctx, (ast.Store, ast.Del)) for st in h.body for x in ast.walk(st))
+                    if len(ifs) == 1 and not rebinds:
+                        i, st = ifs[0]
+                        tname = ast.unparse(st.test.args[1]).split(".")[-1]
+                        earlier = [ast.unparse(x.type).split(".")[-1] for x in tr.handlers[:tr.handlers.index(h)] if x.type is not None]
+                        if is_exception(tname) and tname != "Exception" and tname not in earlier:
+                            pre, post = h.body[:i], h.body[i + 1:]
+                            h1 = ast.copy_location(ast.ExceptHandler(type=copy.deepcopy(st.test.args[1]), name=h.name, body=copy.deepcopy(pre) + st.body + copy.deepcopy(post)), h)
+                            rest_body = pre + st.orelse + post
+                            h2 = ast.copy_location(ast.ExceptHandler(type=h.type, name=h.name, body=rest_body or [ast.copy_location(ast.Pass(), h)]), h)
+                            new_handlers += [h1, h2]
+                            done = True
+                if not done:
+                    new_handlers.append(h)
+            tr.handlers = new_handlers
+
+
 # ------------------------------------------------------------------------------------------------ entry
 def normalise(trees: dict[str, ast.Module]) -> None:
     known = known_names()
     _inline_helpers(trees, known)
+    _split_handlers(trees)
     for t in trees.values():
         _inline_constants(t, known)
         _Exprs().visit(t)
